@@ -171,7 +171,7 @@ def build_TC11v(tree):
                           {'origin_distances': 'd', 'origin_distances.min()': 'dmin'},
                           'get_volume_positions, gaps: the multiple of the spacing at which a plane of distance d lies'))
     spans.append(a)
-    a = _one(_assigns(gaps, 'is_regular'), 'is_regular (gaps)')
+    a = reg_assign = _one((n for n in gaps.body if isinstance(n, ast.Assign) and ast.unparse(n.targets[0]) == 'is_regular'), 'is_regular (gaps)')
     kw = _call_shape(a.value, 'np.allclose', ['origin_distance_multiples', 'origin_distance_multiples.round()'],
                      {'rtol': None, 'atol': None}, 'is_regular (gaps)')
     out.append(scalar_def(kw['rtol'], 'gapRtol', [], {}, 'get_volume_positions, gaps: rtol of the comparison of a multiple with its rounding'))
@@ -182,6 +182,18 @@ def build_TC11v(tree):
     if ast.unparse(a.value) != 'origin_distance_multiples.round().astype(np.int64)':
         raise Unsupported(f'gaps: volume index is {ast.unparse(a.value)}')
     spans.append(a)
+    # distinct positions must get distinct indices
+    coll = _one((n for n in gaps.body if isinstance(n, ast.If) and 'np.unique(inverse_sort_index)' in ast.unparse(n.test)),
+                'gaps: test that distinct positions get distinct indices')
+    if [ast.unparse(s) for s in coll.body] != ['is_regular = False'] or coll.orelse:
+        raise Unsupported(f'gaps: colliding indices lead to {[ast.unparse(s) for s in coll.body]}')
+    if gaps.body.index(coll) < gaps.body.index(a) or gaps.body.index(coll) < gaps.body.index(reg_assign):
+        raise Unsupported('gaps: the distinct-index test precedes the indices / the tolerance test')
+    out.append(scalar_def(coll.test, 'gapIndicesCollide', [('distinct', 'int'), ('count', 'int')],
+                          {'len(np.unique(inverse_sort_index))': 'distinct', 'len(inverse_sort_index)': 'count'},
+                          'get_volume_positions, gaps: the stack is not regular when this holds (distinct = number of different indices, '
+                          'count = number of examined positions)'))
+    spans.append(coll)
 
     # ---- after the branch: handedness, returned spacing; before it: the single-position case
     hand = _one((n for n in fn.body if isinstance(n, ast.If) and ast.unparse(n.test) == 'is_regular and enforce_handedness'),
